@@ -636,9 +636,12 @@ class GenFunctions(object):
 
         attrs = dict(
             val=dict(
-                intent="in", value=True
-            )  # XXX - what about pointer variables?
+                intent="in"
+            )
         )
+        if not ast.is_pointer():
+            # A pointer member is set from a pointer: C takes 'T *val'.
+            attrs["val"]["value"] = True
 
         splicer = dict(
             c=[
